@@ -159,7 +159,7 @@ class AsyncSuite(Suite):
     nontrivial_rule = "at least one coroutine suspended across driver operations or a co_await chain of depth >= 2"
 
     def gen_cases(self, rng, tier):
-        n, ndeep = (500, 30) if tier == "quick" else (20000, 1500)
+        n, ndeep = (1200, 60) if tier == "quick" else (150000, 10000)
         cases = [gen_case(rng) for _ in range(n)]
         cases += [gen_case(rng, deep=True) for _ in range(ndeep)]
         return cases
